@@ -73,6 +73,7 @@ class Cfg:
         priv_pass=b"privpass34",
         key_type=KT_PASSWORD,
         discover=False,
+        priv_key_type=None,
     ):
         self.version = version  # "v1" | "v2c" | "v3"
         self.community = community
@@ -83,16 +84,18 @@ class Cfg:
         self.auth_pass = bytes(auth_pass)
         self.priv_pass = bytes(priv_pass)
         self.key_type = key_type
+        self.priv_key_type = key_type if priv_key_type is None else priv_key_type
         self.discover = discover  # create the socket without an engine id
 
     @property
     def name(self):
         if self.version != "v3":
             return self.version
-        return "v3-%s-%s-kt%d%s" % (
+        return "v3-%s-%s-kt%d%s%s" % (
             AUTH_NAMES[self.auth],
             PRIV_NAMES[self.priv],
             self.key_type,
+            ("p%d" % self.priv_key_type) if self.priv_key_type != self.key_type else "",
             "-disc" if self.discover else "",
         )
 
@@ -105,6 +108,7 @@ class Cfg:
                 auth=AUTH_NAMES[self.auth],
                 priv=PRIV_NAMES[self.priv],
                 key_type=self.key_type,
+                priv_key_type=self.priv_key_type,
                 discover=self.discover,
                 auth_pass=self.auth_pass.hex(),
                 priv_pass=self.priv_pass.hex(),
@@ -126,6 +130,7 @@ class Cfg:
             auth=inv_a[d["auth"]],
             priv=inv_p[d["priv"]],
             key_type=d["key_type"],
+            priv_key_type=d.get("priv_key_type"),
             discover=d.get("discover", False),
             auth_pass=bytes.fromhex(d["auth_pass"]) if "auth_pass" in d else b"authpass12",
             priv_pass=bytes.fromhex(d["priv_pass"]) if "priv_pass" in d else b"privpass34",
@@ -144,22 +149,22 @@ class Cfg:
         return refcrypto.localize(self.auth, master_key(self.auth, self.priv_pass), engine_id or self.engine_id)
 
     # ---- material as handed to the library, per key type
-    def _material(self, alg_for_digest, password, engine_id):
-        if self.key_type == KT_PASSWORD:
+    def _material(self, alg_for_digest, password, engine_id, key_type=None):
+        key_type = self.key_type if key_type is None else key_type
+        if key_type == KT_PASSWORD:
             return password
         mk = master_key(alg_for_digest, password)
-        if self.key_type == KT_MASTER:
+        if key_type == KT_MASTER:
             return mk
         return refcrypto.localize(alg_for_digest, mk, engine_id)
 
     def raw_args(self, engine_id=None):
         """(engine_id, user, auth_alg, auth_key, priv_alg, priv_key) for SnmpV3ClientSocket."""
         eid = self.engine_id if engine_id is None else engine_id
-        mask = self.key_type << 6
-        a_alg = (self.auth | mask) if self.auth else 0
+        a_alg = (self.auth | (self.key_type << 6)) if self.auth else 0
         a_key = self._material(self.auth, self.auth_pass, eid) if self.auth else b""
-        p_alg = (self.priv | mask) if self.priv else 0
-        p_key = self._material(self.auth, self.priv_pass, eid) if self.priv else b""
+        p_alg = (self.priv | (self.priv_key_type << 6)) if self.priv else 0
+        p_key = self._material(self.auth, self.priv_pass, eid, self.priv_key_type) if self.priv else b""
         return eid, self.user, a_alg, a_key, p_alg, p_key
 
     def make_user(self):
@@ -167,14 +172,16 @@ class Cfg:
         subject()
         from gufo.snmp.user import Aes128Key, DesKey, KeyType, Md5Key, Sha1Key, User
 
-        kt = {0: KeyType.Password, 1: KeyType.Master, 2: KeyType.Localized}[self.key_type]
+        kts = {0: KeyType.Password, 1: KeyType.Master, 2: KeyType.Localized}
+        kt = kts[self.key_type]
+        pkt = kts[self.priv_key_type]
         ak = pk = None
         if self.auth:
             cls = {1: Md5Key, 2: Sha1Key}[self.auth]
             ak = cls(self._material(self.auth, self.auth_pass, self.engine_id), key_type=kt)
         if self.priv:
             cls = {1: DesKey, 2: Aes128Key}[self.priv]
-            pk = cls(self._material(self.auth, self.priv_pass, self.engine_id), key_type=kt)
+            pk = cls(self._material(self.auth, self.priv_pass, self.engine_id, self.priv_key_type), key_type=pkt)
         return User(self.user, auth_key=ak, priv_key=pk)
 
     def make_raw_socket(self, port, timeout_ns=0):
@@ -184,11 +191,10 @@ class Cfg:
             return fast.SnmpV1ClientSocket(addr, self.community, 0, 0, 0, timeout_ns)
         if self.version == "v2c":
             return fast.SnmpV2cClientSocket(addr, self.community, 0, 0, 0, timeout_ns)
-        eid, user, a_alg, a_key, p_alg, p_key = self.raw_args(b"" if self.discover else None)
-        if self.discover and self.key_type == KT_LOCALIZED:
-            # localized keys need the engine id; constructor gets the real one's keys
-            eid2, user, a_alg, a_key, p_alg, p_key = self.raw_args(self.engine_id)
-            eid = b""
+        if self.discover:
+            # what the public clients do: no engine id, anonymous user, keys installed later via set_keys
+            return fast.SnmpV3ClientSocket(addr, b"", "", 0, b"", 0, b"", 0, 0, 0, timeout_ns)
+        eid, user, a_alg, a_key, p_alg, p_key = self.raw_args()
         return fast.SnmpV3ClientSocket(addr, eid, user, a_alg, a_key, p_alg, p_key, 0, 0, 0, timeout_ns)
 
 
